@@ -253,20 +253,71 @@ pub fn c15_run(ctx: &Ctx) -> i32 {
 
 #[derive(Clone, Debug)]
 pub enum Op<T> {
-    FromIter(Vec<T>),
+    /// items and the shape of the iterator they are offered through (`offer`)
+    FromIter(Vec<T>, u8),
     Insert(T),
-    Extend(Vec<T>),
+    Extend(Vec<T>, u8),
     Contains(T),
     Iterate,
     CloneSelf,
     Reset,
 }
 
+pub const N_SHAPES: u8 = 14;
+
+/// The same items through iterators of different kinds: what `FromIterator` / `Extend` may legitimately assume about
+/// an iterator is only what `Iterator` promises (size_hint is a hint; lower bound 0, upper bound None are common).
+fn offer<'a, T: Clone + 'a>(v: &'a [T], shape: u8) -> Box<dyn Iterator<Item = T> + 'a> {
+    struct NoHint<I>(I);
+    impl<I: Iterator> Iterator for NoHint<I> {
+        type Item = I::Item;
+        fn next(&mut self) -> Option<I::Item> {
+            self.0.next()
+        }
+        // default size_hint: (0, None)
+    }
+    match shape % N_SHAPES {
+        0 => Box::new(v.iter().cloned()),                                  // exact size
+        1 => Box::new(v.to_vec().into_iter()),                             // owned, exact size
+        2 => Box::new(v.iter().cloned().filter(|_| true)),                 // (0, Some(n))
+        3 => Box::new(v.chunks(2).flat_map(|c| c.iter().cloned())),        // (0, None) / loose
+        4 => {
+            let (a, b) = v.split_at(v.len() / 2);
+            Box::new(a.iter().cloned().chain(b.iter().cloned()))           // exact, chained
+        }
+        5 => Box::new(NoHint(v.iter().cloned())),                          // (0, None)
+        6 => {
+            let mut i = 0;
+            Box::new(std::iter::from_fn(move || {
+                i += 1;
+                v.get(i - 1).cloned()
+            }))                                                            // (0, None)
+        }
+        7 => Box::new(v.iter().cloned().take_while(|_| true)),             // (0, Some(n))
+        8 => Box::new(v.iter().cloned().skip_while(|_| false)),            // (0, Some(n))
+        9 => {
+            // lower bound 1, more items follow
+            let mut it = v.iter().cloned();
+            match it.next() {
+                Some(first) => Box::new(std::iter::once(first).chain(it.filter(|_| true))),
+                None => Box::new(std::iter::empty()),
+            }
+        }
+        10 => Box::new(v.iter().cloned().map_while(Some)),                 // (0, Some(n))
+        11 => Box::new(v.iter().cloned().scan((), |_, x| Some(x))),        // (0, Some(n))
+        12 => Box::new(v.iter().cloned().peekable()),                      // exact, buffered
+        _ => Box::new(v.iter().cloned().fuse().inspect(|_| {})),           // exact through adaptors
+    }
+}
+
 fn op_strategy<T: std::fmt::Debug + Clone + 'static>(elem: impl Strategy<Value = T> + Clone + 'static) -> impl Strategy<Value = Op<T>> {
+    // mostly small bulks; 1 in 9 offers 6..80 items at once (size thresholds inside the set)
+    let bulk = |e: BoxedStrategy<T>| prop_oneof![8 => vec(e.clone(), 0..6), 1 => vec(e, 6..80)];
+    let elem = elem.boxed();
     prop_oneof![
-        2 => vec(elem.clone(), 0..6).prop_map(Op::FromIter),
+        2 => (bulk(elem.clone()), 0..N_SHAPES).prop_map(|(v, s)| Op::FromIter(v, s)),
         6 => elem.clone().prop_map(Op::Insert),
-        3 => vec(elem.clone(), 0..6).prop_map(Op::Extend),
+        3 => (bulk(elem.clone()), 0..N_SHAPES).prop_map(|(v, s)| Op::Extend(v, s)),
         3 => elem.prop_map(Op::Contains),
         2 => Just(Op::Iterate),
         1 => Just(Op::CloneSelf),
@@ -307,9 +358,9 @@ fn ops_to_json<T: Elem>(ops: &[Op<T>]) -> Value {
     Value::Array(
         ops.iter()
             .map(|o| match o {
-                Op::FromIter(v) => json!({"op": "from_iter", "v": v.iter().map(|x| x.to_json()).collect::<Vec<_>>()}),
+                Op::FromIter(v, sh) => json!({"op": "from_iter", "shape": sh, "v": v.iter().map(|x| x.to_json()).collect::<Vec<_>>()}),
                 Op::Insert(x) => json!({"op": "insert", "v": [x.to_json()]}),
-                Op::Extend(v) => json!({"op": "extend", "v": v.iter().map(|x| x.to_json()).collect::<Vec<_>>()}),
+                Op::Extend(v, sh) => json!({"op": "extend", "shape": sh, "v": v.iter().map(|x| x.to_json()).collect::<Vec<_>>()}),
                 Op::Contains(x) => json!({"op": "contains", "v": [x.to_json()]}),
                 Op::Iterate => json!({"op": "iterate"}),
                 Op::CloneSelf => json!({"op": "clone"}),
@@ -323,10 +374,11 @@ fn ops_from_json<T: Elem>(v: &Value) -> Option<Vec<Op<T>>> {
     let mut ops = vec![];
     for o in v.as_array()? {
         let vals: Vec<T> = o["v"].as_array().map(|a| a.iter().filter_map(T::from_json).collect()).unwrap_or_default();
+        let shape = o["shape"].as_u64().unwrap_or(0) as u8;
         ops.push(match o["op"].as_str()? {
-            "from_iter" => Op::FromIter(vals),
+            "from_iter" => Op::FromIter(vals, shape),
             "insert" => Op::Insert(vals.first()?.clone()),
-            "extend" => Op::Extend(vals),
+            "extend" => Op::Extend(vals, shape),
             "contains" => Op::Contains(vals.first()?.clone()),
             "iterate" => Op::Iterate,
             "clone" => Op::CloneSelf,
@@ -394,14 +446,14 @@ fn run_history<T: Ord + Clone + Hash + std::fmt::Debug>(
     check(&set, &model, 0, "new")?;
     for (i, op) in ops.iter().enumerate() {
         match op {
-            Op::FromIter(v) => {
+            Op::FromIter(v, shape) => {
                 let mut seen = BTreeSet::new();
                 for x in v {
                     if !seen.insert(x) {
                         facts.duplicate_offered = true;
                     }
                 }
-                set = v.iter().cloned().collect();
+                set = offer(v, *shape).collect();
                 model = v.iter().cloned().collect();
                 bulk_seen = true;
             }
@@ -415,13 +467,13 @@ fn run_history<T: Ord + Clone + Hash + std::fmt::Debug>(
                 set.insert(x.clone());
                 model.insert(x.clone());
             }
-            Op::Extend(v) => {
+            Op::Extend(v, shape) => {
                 for x in v {
                     if model.contains(x) {
                         facts.duplicate_offered = true;
                     }
                 }
-                set.extend(v.iter().cloned());
+                set.extend(offer(v, *shape));
                 model.extend(v.iter().cloned());
                 bulk_seen = true;
             }
@@ -493,7 +545,7 @@ fn c18_pair<T: Elem>(a: &[Op<T>], b: &[Op<T>], probes: &[T], st: &mut Stats, lab
     Ok(())
 }
 
-pub const C18_RULE: &str = "pairs of operation histories (from_iter, insert, extend, contains, iteration by slice / &set / into_iter, clone, reset; 0..40 ops) over Oset<u8> with a 12-value domain, Oset<(i8, String)> and Oset<Vec<u8>>, interpreted against std BTreeSet after every step (iteration order, strict increase, len, contains for members and non-members); for the pair: ==, cmp, partial_cmp and Hash depend only on the element sets and agree with sets built from the sorted elements. Non-trivial = a history with >= 1 duplicate offered and >= 1 out-of-order insert after a bulk operation; distinct = the history.";
+pub const C18_RULE: &str = "pairs of operation histories (from_iter, insert, extend, contains, iteration by slice / &set / into_iter, clone, reset; 0..40 ops; bulks of 0..5 items, 1 in 9 of 6..79; every bulk is offered through one of 14 iterator shapes: exact-size, owned, filter, flat_map, chain, no size hint, from_fn, take_while, skip_while, lower-bound-1, map_while, scan, peekable, fuse+inspect) over Oset<u8> with a 12-value domain, Oset<u8> over the whole range (sets of 100+ elements), Oset<(i8, String)> and Oset<Vec<u8>>, interpreted against std BTreeSet after every step (iteration order, strict increase, len, contains for members and non-members); for the pair: ==, cmp, partial_cmp and Hash depend only on the element sets and agree with sets built from the sorted elements. Non-trivial = a history with >= 1 duplicate offered and >= 1 out-of-order insert after a bulk operation; distinct = the history.";
 
 pub fn c18_run(ctx: &Ctx) -> i32 {
     let mut rep = Report::new(ctx, C18_RULE);
@@ -536,6 +588,18 @@ pub fn c18_run(ctx: &Ctx) -> i32 {
         },
     );
     rep.absorb("E1-proptest-vec", out);
+    // large sets: the whole u8 range, bulks of up to 80 items (sets of 100+ elements)
+    let out = run_sharded(
+        ctx,
+        "C18-wide",
+        n / 3,
+        || (vec(op_strategy(any::<u8>()), 0..40), vec(op_strategy(any::<u8>()), 0..12)),
+        |(a, b), st| {
+            st.class("elem:u8-whole-range");
+            c18_pair(a, b, &(0u8..=255).collect::<Vec<_>>(), st, "u8")
+        },
+    );
+    rep.absorb("E1-proptest-u8-wide", out);
     if ctx.tier == Tier::Thorough {
         crate::fuzzrun::run_into(ctx, &mut rep, crate::fuzzrun::Campaign { target: "oset_ops", prop: "C18", runs_total: (ctx.scale * 8_000_000.0) as u64, max_len: 400, seeds: vec![vec![5, 1, 3, 1, 3, 4, 2, 3, 3, 1, 2, 3, 1, 1, 2, 1]], dict: false });
     }
@@ -556,9 +620,9 @@ pub fn c18_from_bytes(data: &[u8]) -> Result<(), Failure> {
                 (0..m).map(|_| it.next().unwrap_or(0) % 12).collect()
             };
             ops.push(match k % 10 {
-                0 => Op::FromIter(vals(it)),
+                0 => Op::FromIter(vals(it), k / 10),
                 1 | 2 | 3 => Op::Insert(it.next().unwrap_or(0) % 12),
-                4 | 5 => Op::Extend(vals(it)),
+                4 | 5 => Op::Extend(vals(it), k / 10),
                 6 => Op::Contains(it.next().unwrap_or(0) % 12),
                 7 => Op::Iterate,
                 8 => Op::CloneSelf,
